@@ -19,8 +19,8 @@ import (
 	"testing/synctest"
 	"time"
 
-	dtlshandshake "github.com/pion/dtls/v3/internal/handshake"
 	dtlsfragmentbuffer "github.com/pion/dtls/v3/internal/fragmentbuffer"
+	dtlshandshake "github.com/pion/dtls/v3/internal/handshake"
 	dtlsstate "github.com/pion/dtls/v3/internal/state"
 )
 
